@@ -74,6 +74,15 @@ CHECKS['C07'] = dict(
          'Exploration over edge/gap/single-channel spectra on single-band, narrow-band and C+L networks.',
     note='Amplifier bands read from the loaded library; routes without amplifiers not judged.', ref='3/C07')
 
+CHECKS['C08'] = dict(
+    technique='runtime monitor: structural invariant checker hooked at the quiescent point after designed_network() '
+              '(completeness, padding, equal splits, no bare junction, one-in/one-out chains, unchanged adjacency and '
+              'reachability) over generated topologies x configurations',
+    text='Every design of a generated well-formed topology is inspected as a whole against its input documents. '
+         'Exploration: held on the designs observed; four listed known findings are reproduced by dedicated cases.',
+    note='Well-formedness = docs/json.rst + loaders accept; Raman and lumped-loss fibres below max length in the main '
+         'workload; listed findings in known_findings.json.', ref='3/C08')
+
 NOT_APPLICABLE = {
 }
 
